@@ -155,6 +155,16 @@ pub static TWINS_PLACED: std::sync::atomic::AtomicU64 = std::sync::atomic::Atomi
 impl Case {
     pub fn pixels(&self, unit: bool) -> Vec<[f32; 3]> {
         match &self.px {
+            Px::Seeded { stratum: 99, seed } => {
+                // 4099 is prime: for any block size below it every position inside a block is visited, by a lone outlier
+                let mut px = expand(5, *seed, self.w * self.h, unit);
+                for (k, i) in (1364..px.len()).step_by(4099).enumerate() {
+                    let mut q = [1e-4f32; 3];
+                    q[k % 3] = -0.25 - 0.5 * ((k % 7) as f32 / 7.0);
+                    px[i] = q;
+                }
+                px
+            }
             Px::Seeded { stratum, seed } => {
                 let mut px = expand(*stratum, *seed, self.w * self.h, unit);
                 if seed % 3 == 0 {
@@ -442,7 +452,10 @@ fn large_images(ctx: &Ctx, st: &mut Stats, chk: fn(&Case, &mut Stats) -> Result<
     par_sweep(ctx, st, sizes.len() as u64 * 3, |lo, hi, st| {
         for j in lo..hi {
             let (w, h) = sizes[(j / 3) as usize];
-            let case = Case { w, h, px: Px::Seeded { stratum: [0u8, 8, 5][(j % 3) as usize], seed: mix64(seed0 ^ (j << 8) ^ 0x1A46E) } };
+            // the third image of a size (C04): non-negative with one single-negative-component pixel every 4099 pixels
+            // (stratum 99, see `pixels`)
+            let third = if chk as usize == check_c04 as usize { 99u8 } else { 5 };
+            let case = Case { w, h, px: Px::Seeded { stratum: [0u8, 8, third][(j % 3) as usize], seed: mix64(seed0 ^ (j << 8) ^ 0x1A46E) } };
             let mut local = Stats::new();
             local.sample_budget = 0;
             if let Err(v) = chk(&case, &mut local) {
